@@ -232,32 +232,45 @@ def r05_4(ctx):
         ok = all(("_user_selection" in k or "_user_value" in k) for k, _ in gs)
         (ctx.ok(construct, u.loc(cl[0])) if ok else ctx.bad(construct, f"guards {sorted(gs)}", u.loc(cl[0])))
     r = repo.func(f"{CORE}:_restore_default")
-    ic = repo.func(f"{CORE}:_restore_default.<locals>.invalidate_choice")
-    isy = repo.func(f"{CORE}:_restore_default.<locals>.invalidate_symbol")
-    ctx.analysed(r.qual, ic.qual, isy.qual)
+    ctx.analysed(r.qual)
     construct = "_restore_default/resetting a choice or a member clears the pick and every member's user value"
+    # the effect of the function as a whole, however it is split into helpers: analysed on a copy with its helpers inlined
+    from ..inline import inlined_function
+    fi = inlined_function(r.module.tree, "_restore_default")
+    rr = Resolver(fi)
+    fr = Flow(fi, resolver=rr).run()
+    item = None
+    for n in ast.walk(fi):
+        if isinstance(n, ast.Call) and ast.unparse(n.func) in ("isinstance", "type") and n.args:
+            item = ast.unparse(rr.resolve(n.args[0]))
+            break
+    if item is None:
+        raise AnchorError("_restore_default: no type dispatch on the node's item")
+
+    def benign(gs):
+        return [x for x in gs if not (("isinstance" in x[0] or "type(" in x[0])) and not (x[0].endswith(".choice is None") and not x[1])
+                and not (x[0].endswith(".choice") and x[1])]
+
+    sel, mem = {}, {}
+    for n in ast.walk(fi):
+        if isinstance(n, ast.Assign) and ast.unparse(n.value) == "None":
+            for t in n.targets:
+                if isinstance(t, ast.Attribute) and t.attr == "_user_selection":
+                    sel.setdefault(ast.unparse(rr.resolve(t.value)), []).append(benign(fr.guards_at(n) or set()))
+        if isinstance(n, ast.For) and isinstance(n.iter, ast.Attribute) and n.iter.attr == "syms" and isinstance(n.target, ast.Name):
+            if any(isinstance(x, ast.Assign) and ast.unparse(x.value) == "None" and any(ast.unparse(t) == f"{n.target.id}._user_value" for t in x.targets)
+                   for x in ast.walk(n)):
+                mem.setdefault(ast.unparse(rr.resolve(n.iter.value)), []).append(benign(fr.guards_at(n) or set()))
     msgs = []
-    ch = ic.node.args.args[0].arg
-    if not any(isinstance(n, ast.Assign) and ast.unparse(n.targets[0]) == f"{ch}._user_selection" and ast.unparse(n.value) == "None"
-               for n in ic.node.body):
-        msgs.append("invalidate_choice does not clear _user_selection unconditionally")
-    lp = [n for n in ic.node.body if isinstance(n, ast.For) and ast.unparse(n.iter) == f"{ch}.syms"]
-    if not lp or not any(isinstance(x, ast.Call) and ast.unparse(x.func) == "invalidate_symbol" and ast.unparse(x.args[0]) == ast.unparse(lp[0].target)
-                         for x in ast.walk(lp[0])):
-        msgs.append("invalidate_choice does not reset every member symbol")
-    elif Flow(ic.node).run().guards_at(lp[0]):
-        msgs.append(f"the member reset is conditional: {sorted(Flow(ic.node).run().guards_at(lp[0]))}")
-    rr = Resolver(r.node)
-    fr = Flow(r.node, resolver=rr).run()
-    cc = [n for n in ast.walk(r.node) if isinstance(n, ast.Call) and ast.unparse(n.func) == "invalidate_choice" and repo.enclosing_func(n) is r]
-    via_member = [c for c in cc if rr.text(c.args[0]).endswith(".choice")]
-    if not via_member:
-        msgs.append("resetting a member symbol does not reset its choice")
-    else:
-        gs = fr.guards_at(via_member[0]) or set()
-        extra = [x for x in gs if not ("isinstance" in x[0] and x[1]) and not (x[0].endswith(".choice is None") and not x[1])]
-        if extra:
-            msgs.append(f"choice reset via a member additionally guarded by {extra}")
+    for recv, what in ((item, "the choice itself"), (f"{item}.choice", "the choice of a member")):
+        if recv not in sel:
+            msgs.append(f"resetting {what} does not clear its _user_selection")
+        elif all(g for g in sel[recv]):
+            msgs.append(f"the pick of {what} is cleared only under {sel[recv][0]}")
+        if recv not in mem:
+            msgs.append(f"resetting {what} does not reset every member's user value")
+        elif all(g for g in mem[recv]):
+            msgs.append(f"the members of {what} are reset only under {mem[recv][0]}")
     (ctx.bad(construct, "; ".join(msgs), r.loc()) if msgs else ctx.ok(construct, r.loc()))
 
 
